@@ -165,6 +165,12 @@ def run(facts, cg):
             if not count_used(b, uses, t['dest']['l']):
                 finding('R-EXACTIO', b, 'count-ignored:%s' % t['callee']['q'].split('::')[-1],
                         'the byte count of %s at %s is never looked at (a short read/write would go unnoticed)' % (t['callee']['q'], t['loc']))
+            elif t['callee']['q'].split('::')[-1] in ('read', 'read_buf') and not count_used(b, uses, t['dest']['l'], direct_only=True):
+                # a read that returns 0 says "no more": the count itself must meet a test before it disappears into a running total
+                # (`while filled < size { filled += read(..)? }` spins for ever on a source that ends early)
+                finding('R-EXACTIO', b, 'zero-read-unnoticed:%s' % t['callee']['q'].split('::')[-1],
+                        'the byte count of %s at %s is only added to a running total: a read of 0 bytes (end of the data) is not noticed, the loop around it '
+                        'never ends on a source that is shorter than expected' % (t['callee']['q'], t['loc']))
     instances.append({'rule': 'R-ERR', 'obligations': n_results, 'functions_in_scope': len(reach), 'entry_points': [facts.bodies[r].q for r in roots], 'result_values_checked': n_results})
     instances.append({'rule': 'R-EXACTIO', 'obligations': n_counts, 'counted_io_calls': n_counts})
     if not roots or n_results < 50:
@@ -299,7 +305,7 @@ def _payload_sinks(b, uses, us):
     return out
 
 
-def count_used(b, uses, start, depth=0):
+def count_used(b, uses, start, depth=0, direct_only=False):
     """follow the value produced by a counted I/O call (future -> await -> Result -> ? -> count) to a use that *reacts* to it:
     a comparison, a branch, a bounds check / slice bound, or an argument of another call.  Adding it to a running total is
     not such a use by itself (the total is followed on): `n += file.write(buf)?` counts bytes, it does not notice a short write."""
@@ -321,6 +327,8 @@ def count_used(b, uses, start, depth=0):
                 if is_int and rvk == 'binop':
                     if node['rv']['op'] in ('Eq', 'Ne', 'Lt', 'Le', 'Gt', 'Ge'):
                         return True
+                    if direct_only:
+                        continue            # (the total is another value: what is asked is whether the count itself was looked at)
                     work.append(dst)        # arithmetic: follow the result (a running total, an offset)
                     continue
                 if is_int and rvk == 'agg':
@@ -337,6 +345,8 @@ def count_used(b, uses, start, depth=0):
                     name = q.split('::')[-1]
                     if name in ('checked_add', 'wrapping_add', 'saturating_add', 'add', 'add_assign', 'from', 'into', 'try_from', 'try_into',
                                 'new_display', 'new_debug', 'new'):
+                        if direct_only and name in ('checked_add', 'wrapping_add', 'saturating_add', 'add', 'add_assign'):
+                            continue
                         if not node['dest']['p']:
                             work.append(node['dest']['l'])
                         continue
